@@ -28,7 +28,10 @@ class Contract(object):
         self.params = {k: parse_type(v) for k, v in (params or {}).items()}
         self.returns = parse_type(returns) if isinstance(returns, str) else returns
         self.requires = list(requires)
-        self.ensures = list(ensures)
+        # clauses written "native: <expr>" are NOT proof obligations: the verifier cannot decide them; they are evaluated
+        # only by the native search on the real code (a bounded stand-in, reported as such)
+        self.native_ensures = [e[len("native:"):].strip() for e in ensures if e.startswith("native:")]
+        self.ensures = [e for e in ensures if not e.startswith("native:")]
         self.modifies = list(modifies)
         self.raises = dict(raises or {})      # exception name -> list of clauses that must hold when it is raised
         self.loops = dict(loops or {})
@@ -48,7 +51,9 @@ class Contract(object):
         self.lemmas_used = list(lemmas_used)
         self.native_gen = native_gen   # python source of  def gen(rng): return {param: value}  using the real constructors
         self.native_search = native_search   # False: inputs cannot be built natively by type (C-backed objects)
-        self.may_raise = dict(may_raise or {})   # exception name -> clauses that hold in the post-state when it is raised
+        self.may_raise = {k: [c for c in v if not c.startswith("native:")] for k, v in dict(may_raise or {}).items()}
+        self.native_may_raise = {k: [c[len("native:"):].strip() for c in v if c.startswith("native:")]
+                                 for k, v in dict(may_raise or {}).items()}   # exception name -> clauses that hold in the post-state when it is raised
         self.native_tol = native_tol   # tolerance of the native (CPython) clause evaluation; 0 = exact
         self.assume = list(assume)   # extra assumptions (listed as trusted)
 
